@@ -440,6 +440,7 @@ def c10_priv(Pv, tier, timeout_s=300):
     s.sat(f"private wrapper N={n}: vacuity, two witnesses over the same child inputs and preimages exist")
     s.holds(f"private wrapper N={n}: every two satisfying witnesses over the same child inputs/preimages expose the same public output",
             z3.And([a == b for a, b in zip(Pv.pis, B.pis)]))
+    s.copy_b = B.sx
     return s
 
 
@@ -454,6 +455,7 @@ def c10_pub(Pb, tier, timeout_s=120):
     s.sat(f"public wrapper M={m},N={n}: vacuity, two witnesses over the same inner inputs/address exist")
     s.holds(f"public wrapper M={m},N={n}: every two satisfying witnesses over the same inner inputs/address expose the same public output",
             z3.And([a == b for a, b in zip(Pb.pis, B.pis)]))
+    s.copy_b = B.sx
     return s
 
 
